@@ -57,6 +57,23 @@ static void add_conversion_pair(chaiscript::ChaiScript_Basic &chai, int which) {
   }
 }
 
+// overloads of ONE name registered by all threads at the same moment: thread k contributes the overload taking Tag<100 + k>
+template<int N>
+static void add_tag_makers(chaiscript::ChaiScript_Basic &chai) {
+  if constexpr (N >= 0) {
+    chai.add(chaiscript::fun([]() { return Tag<100 + N>(); }), "mk_ov" + std::to_string(N));
+    add_tag_makers<N - 1>(chai);
+  }
+}
+
+template<int N>
+static void add_overload_for(chaiscript::ChaiScript_Basic &chai, int which, const std::string &name, int round) {
+  if constexpr (N >= 0) {
+    if (which == N) chai.add(chaiscript::fun([round](const Tag<100 + N> &t) { return t.v * 1000 + round; }), name);
+    else add_overload_for<N - 1>(chai, which, name, round);
+  }
+}
+
 struct Failure { std::string text; };
 
 static std::string run_workload(unsigned seed, int w, int rep, long &ops_done, std::string &sample) {
@@ -71,6 +88,9 @@ static std::string run_workload(unsigned seed, int w, int rep, long &ops_done, s
             "def shared_loop(n) { var s = 0; for (var i = 0; i < n; ++i) { s += i }; s }\n"
             "class Shared { var v; def Shared(x) { this.v = x } def twice() { this.v * 2 } }\n"
             "def shared_str(s, k) { var r = s; for (var i = 0; i < k; ++i) { r += \"x\" }; r.size() }\n");
+  const int overload_rounds = 8;
+  add_tag_makers<15>(chai);
+  for (int r = 1; r < overload_rounds; r += 2) chai.add(chaiscript::fun([](int x) { return x; }), "ovr_" + std::to_string(r));   // odd rounds: the name exists already and is being called
   char path[128];
   std::snprintf(path, sizeof path, "/dev/shm/verif_c13_use_%d_%d_%d.chai", static_cast<int>(getpid()), w, rep);
   { std::ofstream f(path); f << "use_count_incr()\ndef from_used_file() { 4242 }\n"; }
@@ -224,6 +244,30 @@ static std::string run_workload(unsigned seed, int w, int rep, long &ops_done, s
         } catch (const std::exception &e) {
           fail(tid, std::string("contended registration left nothing behind: ") + e.what());
         }
+      }
+    }
+    // contended overloads: every thread adds its OWN overload (a parameter type of its own) to the same name at the same moment,
+    // on odd rounds while half of the threads are calling an overload of that name; all T overloads must be retained
+    for (int round = 0; round < overload_rounds; ++round) {
+      const std::string name = "ovr_" + std::to_string(round);
+      barrier.wait();
+      try {
+        Inside in;
+        if (round % 2 == 1 && tid % 2 == 1 && chai.eval<int>(name + "(5)") != 5) fail(tid, name + "(5) wrong while overloads are being added");
+        add_overload_for<15>(chai, tid, name, round);
+        if (chai.eval<int>(name + "(mk_ov" + std::to_string(tid) + "())") != (100 + tid) * 1000 + round) fail(tid, "own overload of " + name + " wrong after add() returned");
+      } catch (const std::exception &e) {
+        fail(tid, std::string("adding an overload to a shared name: ") + e.what());
+      }
+      barrier.wait();
+      try {
+        Inside in;
+        for (int k = 0; k < T; ++k) {
+          if (chai.eval<int>(name + "(mk_ov" + std::to_string(k) + "())") != (100 + k) * 1000 + round) fail(tid, "overload of " + name + " registered by thread " + std::to_string(k) + " wrong");
+        }
+        if (round % 2 == 1 && chai.eval<int>(name + "(7)") != 7) fail(tid, "the overload " + name + "(int) that existed before is lost");
+      } catch (const std::exception &e) {
+        fail(tid, "an overload of " + name + " registered concurrently by another thread is lost: " + e.what());
       }
     }
     barrier.wait();
